@@ -289,6 +289,8 @@ async fn resolve_hostname_to_ip<'a>(
     };
     for rtype in rtypes {
         question.qtype = QueryType::Record(rtype);
+        #[cfg(resolved_verif)]
+        simseam::trace::address_lookup(&question, resolve_locally);
         if resolve_locally {
             if let Ok(LocalResolutionResult::Done { resolved }) = resolve_local(context, &question)
             {
